@@ -112,3 +112,15 @@ CHECKS["C20"] = dict(
     assumptions=["'non-global' = loopback/unspecified/multicast/link-local/broadcast (the code's and existing tests' meaning; RFC1918 is looked up)", "zoned addresses may be XA or XL"],
     units=[unit("props", ["Class", "Expo"], "C20")],
 )
+
+CHECKS["C17"] = dict(
+    level="exploration",
+    rule="(Ledger) rapid-generated histories over the exported ServiceMetrics API of the real collector inside a testing/synctest bubble: 1..4 client IPs (v4, v6, mapped) x 1..3 keys; "
+         "tcpOpen / tcpAuth / tcpClose / udpAdd / udpRemove / advance(0..2 h) / scrape; oracle = ledger of open intervals per (IP, key), checked at every scrape (1 us per reported segment), "
+         "per-location total = per-key total, counters monotone. Non-trivial = a scrape inside >=2 overlapping tunnels of one (IP,key), or close -> scrape -> reopen. "
+         "(Concurrent) generated workloads under the real clock: 2..12 worker goroutines opening/authenticating/closing tunnels for client pools of size 1..8 or all-new clients, fake location database with "
+         "0..50 us latency, 1..4 goroutines gathering continuously; process must stay alive, Gather never errors, counters never decrease, final totals lie in the interval computed from the workers' timestamps. "
+         "Every concurrent workload counts as non-trivial; it is journalled before it runs so that a process death yields its replay file.",
+    assumptions=["fake-time engine: Go 1.26 timer semantics", "schedules are sampled, not enumerated"],
+    units=[unit("props26", ["Ledger"], "C17"), unit("props", ["Concurrent"], "C17", crash_is_violation=True, wedge_is_violation=True)],
+)
